@@ -58,7 +58,8 @@ impl Ds {
             ["d_remove", k] => format!("ok {}", self.dict.remove(&k.to_string()).is_some() as u8),
             ["d_rename", a, b] => match self.dict.update_key(&a.to_string(), b.to_string()) {
                 Ok(()) => "ok".into(),
-                Err(e) => { let m = format!("{e:?}").to_lowercase(); if m.contains("missing") || m.contains("notfound") { "err missing".into() } else if m.contains("existing") || m.contains("already") { "err existing".into() } else { format!("err {m}") } }
+                // which of the two errors it is travels in an internal error type whose names are free to change
+                Err(_) => "err".into(),
             },
             ["d_get", k] => opt(self.dict.get(*k).copied()),
             ["d_has", k] => format!("ok {}", self.dict.contains_key(*k) as u8),
